@@ -26,8 +26,8 @@ def spec(s, plus_on_ref):
 
 
 def in_domain(s):
-    # outside: KELVIN SIGN (str.lower() maps it to ASCII 'k': candidate finding, see the C19 report) and lone surrogates
-    return KELVIN not in s and not any(0xD800 <= ord(c) <= 0xDFFF for c in s)
+    # outside: lone surrogates only
+    return not any(0xD800 <= ord(c) <= 0xDFFF for c in s)
 
 
 def check_against_spec(s):
